@@ -193,6 +193,56 @@ def run(chk, prog):
                    'remove_variable_observer has unguarded panic site(s) %s' % bad, bad[0][1] if bad else None)
 
     # ---- the batch is opened once per continue, not once per slice
+    RF = 'C11.batch-closed-whenever-opened'
+    chk.rule(RF, 'complete_variable_observation is the only place that leaves batch mode (VariablesState keeps recording '
+             'host assignments silently until then). What decides whether it runs in continue_internal is nothing but '
+             '(a) the refusal at entry, (b) the test that the line is complete and (c) the outermost-continue test on '
+             'recursive_continue_count that also guards start_variable_observation: any further condition leaves batch '
+             'mode switched on after a completed continue, and the next set_variable from the host notifies nobody.')
+    if ci is not None:
+        from analysis.guards import resolve_cond as _rc
+        gci = cfg(ci)
+        comp = [bb for bb, t in ci.calls() if callee_short(t) == 'VariablesState::complete_variable_observation']
+        if chk.anchor(RF, 'complete_variable_observation in continue_internal', comp):
+            for i, cb in enumerate(comp):
+                seen_, work_, ctrl = set(), [cb], []
+                while work_:
+                    c_ = work_.pop()
+                    for b in gci.controllers(c_):
+                        if b not in seen_:
+                            seen_.add(b)
+                            ctrl.append(b)
+                            work_.append(b)
+                foreign = []
+                for b in sorted(ctrl):
+                    tt = ci.blocks[b]['term']
+                    if not tt or tt['k'] != 'switch':
+                        continue
+                    c_ = _rc(prog, ci, tt['d'], tr)
+                    at = tr.prov(ci, tt['d']) if tt['d'].get('k') in ('copy', 'move') else set()
+                    ok_ = False
+                    if c_ is not None:
+                        d_ = c_.desc
+                        ok_ = (d_[0] == 'field' and d_[1] == 'Story::async_continue_active') or \
+                            (d_[0] == 'call' and d_[1] == 'Story::can_continue') or \
+                            (d_[0] in ('cmp', 'cmp2') and any('field:Story::recursive_continue_count' in x
+                                                                for x in d_[2:] if isinstance(x, frozenset))) or \
+                            (d_[0] == 'is_ok' and any('Story::continue_single_step' in a for a in d_[1]))
+                    if not ok_:
+                        ok_ = bool(at) and all(a.startswith('const:') or 'Story::continue_single_step' in a
+                                               or 'Story::can_continue' in a or a.startswith(('field:Result', 'field:Option',
+                                                                                                'op:', 'via:'))
+                                               for a in at)
+                    if not ok_:
+                        foreign.append((ci.loc(b), c_.desc if c_ is not None else sorted(at)[:3]))
+                chk.decide(RF, chk.key(RF, 'site', '#%d' % i), not foreign,
+                           'controlled only by the refusal, the completion test and the outermost-continue test '
+                           '(%d controlling branches)' % len(ctrl),
+                           'whether complete_variable_observation runs also depends on %s: when that condition is false a '
+                           'completed continue leaves VariablesState in batch mode, and a later set_variable from the host '
+                           'is recorded silently instead of notifying its observers' % ((foreign[0][1] if foreign else ''),),
+                           foreign[0][0] if foreign else ci.loc(cb))
+
     RE = 'C11.batch-opened-once-per-continue'
     chk.rule(RE, 'In continue_internal start_variable_observation (which empties the set of changed names) runs only when '
              'async_continue_active was false at entry, i.e. when a continue starts - not when a time-limited continue is '
